@@ -155,6 +155,11 @@ def to_events(job, row, findings):
     evs = []
     term_seen = False
     for t in row["trace"]:
+        if job["tr"] == "ws" and t.get("ms", -1) >= WS_CLOSE_DEADLINE_MS:
+            # the WebSocket server gives a client 500 ms to acknowledge the closure and then drops
+            # the connection: what happens later is transport failure, outside C14's statement
+            findings.append({"slow": True, "job": job})
+            break
         e = {"ev": t["ev"], "s": t["s"], "op": t["op"], "id": t["id"], "res": t["res"],
              "k": cls if (t["ev"] == "call" and t["op"] == "ret") else "none", "_ms": t.get("ms", -1),
              "_txt": t.get("txt", "")}
@@ -399,6 +404,8 @@ def slow(rej):
 def report_panics(ctx, findings):
     seen = {}
     for f in findings:
+        if f.get("slow"):
+            continue
         job = f["job"]
         if f["after_terminal"]:
             sig = "C14 %s client Receive after terminal panics: %s" % (job["tr"], f["panic"])
@@ -580,7 +587,8 @@ def run(ctx):
         "error_variants": KINDS,
         "scripts_with_payload_ge_64KiB": big,
         "results_seen": {k: v for k, v in sorted(mech.items()) if v},
-        "recovered_panics": len(findings),
+        "recovered_panics": sum(1 for f in findings if not f.get("slow")),
+        "ws_traces_cut_at_close_deadline": sum(1 for f in findings if f.get("slow")),
         "traces_rejected": len(rejections), "traces_set_aside_after_rejection": stats["set_aside"],
         "harness_wall_s": round(wall, 1),
         "rule": "every generated script (call/ret events of both sides, overlapping as generated) is executed on mock, "
@@ -611,6 +619,7 @@ def replay(ctx, path):
         items.append((j, to_events(j, row, findings)))
     _, rej = validate(ctx, items, "replay", chunk_size=1, par=4, max_bad=1)
     shutil.rmtree(ctx.build, ignore_errors=True)
+    findings = [f for f in findings if not f.get("slow")]
     if findings or rej:
         print("VIOLATION property=C14 replay=%s" % path)
         if findings:
